@@ -280,7 +280,7 @@ func TestLiteralRandom(t *testing.T) {
 			}
 			return cls
 		},
-		Quick: 40000, Thorough: 1500000,
+		Quick: 40000, Thorough: 800000,
 	})
 }
 
@@ -389,7 +389,7 @@ func TestStyledRandom(t *testing.T) {
 			}
 			return cls
 		},
-		Quick: 30000, Thorough: 1000000,
+		Quick: 30000, Thorough: 500000,
 	})
 }
 
@@ -661,7 +661,7 @@ func TestPrototextE2E(t *testing.T) {
 			}
 			return cls
 		},
-		Quick: 12000, Thorough: 400000,
+		Quick: 12000, Thorough: 200000,
 	})
 }
 
@@ -994,7 +994,7 @@ func TestEmitUnknown(t *testing.T) {
 			}
 			return cls
 		},
-		Quick: 15000, Thorough: 500000,
+		Quick: 15000, Thorough: 250000,
 	})
 }
 
